@@ -1,6 +1,7 @@
 package sim
 
 import (
+	"time"
 	"bytes"
 	"errors"
 	"fmt"
@@ -359,6 +360,11 @@ func (s *logStore) GetLog(index uint64, out *raft.Log) error {
 func (s *logStore) StoreLog(l *raft.Log) error { return s.StoreLogs([]*raft.Log{l}) }
 
 func (s *logStore) StoreLogs(logs []*raft.Log) error {
+	if fn := s.in.Opts.StoreDelayFn; fn != nil {
+		if d := fn(); d > 0 {
+			time.Sleep(d) // a slow disk: the calling thread is held, everything else goes on
+		}
+	}
 	cp := make([]*raft.Log, len(logs))
 	for i, l := range logs {
 		cp[i] = CopyLog(l)
